@@ -281,7 +281,9 @@ def run_case(case, tier):
     if not pdbio.atoms(a) or not pdbio.atoms(b):
         return util.finish(case, viol, counts, classes, False, {"skipped": "empty part"}, inconclusive="empty part")
     altsets = None
-    if case["kind"] == "built" and rng.random() < 0.15:
+    if case["kind"] == "built" and rng.random() < 0.15 and sources.identities_unique(a) and sources.identities_unique(b):
+        # (tests/pdb/1HPX-warn.pdb repeats an atom record; completing conformations keeps one of two coinciding
+        # atoms, which is no matter of locality)
         # alternate locations in the parts: with the same labels in both (or in one part only) every
         # conformation of a part is the same alone and in the union; with different label sets the union has
         # conformations a part does not have on its own
